@@ -220,6 +220,26 @@ def word_ints(c, w):
     return [idx[x] for x in w]
 
 
+def contract_events(rule, namer, max_n) -> List[dict]:
+    """The strategy contract of a base rule of the fixture, to be checked by TLC on the ground truth."""
+    from comb_spec_searcher.strategies.constructor import CartesianProduct, DisjointUnion
+
+    cons = rule.constructor
+    if isinstance(cons, CartesianProduct):
+        kind = "product"
+    elif isinstance(cons, DisjointUnion):
+        kind = "union"
+    else:
+        return []
+    parent = rule.comb_class
+    maps = []
+    for ch, m in zip(rule.children, cons.extra_parameters):
+        names = list(ch.extra_parameters)
+        maps.append([(names.index(m[k]) + 1) if k in m else 0 for k in parent.extra_parameters])
+    return [{"op": "contract", "kind": kind, "parent": namer(parent), "children": [namer(ch) for ch in rule.children], "maps": maps, "n": n}
+            for n in range(max_n + 1)]
+
+
 def lab_job(args):
     """Worker: all forms of one (class, strategy) pair -> one trace."""
     (ckey, sname), tier, what = args
@@ -245,6 +265,8 @@ def lab_job(args):
             events += lab.events
             if "count" in what:
                 events += lab_count_after_fault(fid, dict(derived_forms(c, s))[fid], namer, max_n)
+                if fid == "rule":
+                    events += contract_events(rule, namer, min(max_n, 5))
             if "objects" in what:
                 fresh = dict(derived_forms(c, s))[fid]
                 events += lab_objects(fid, fresh, namer, min(max_n, 5))
